@@ -108,6 +108,12 @@ def generate(seed, index, tier):
             script.append({'do': 'deploy', 'v': v2, 'apps': ['vb']})
             script.append({'do': 'run', 'driver': 'command', 'purge': True})
             script.append({'do': 'run', 'driver': 'command'})
+    # interleaved `mark-evolution-applied --all` (refused when anything of
+    # the app is already recorded; never records a label twice)
+    if rng.random() < 0.3:
+        if v < n and not purge_mode and rng.random() < 0.6:
+            script.append({'do': 'deploy', 'v': min(n, v + 1)})
+        script.append({'do': 'mark_all', 'pick': rng.random()})
     h['script'] = script
     return h
 
@@ -186,6 +192,41 @@ def execute(scn):
                 executed_ok.pop((r[2], r[3]), None)
                 wiped_unmarked.add((r[2], r[3]))
                 stats['wipe_only'] = stats.get('wipe_only', 0) + 1
+                continue
+            if step['do'] == 'mark_all':
+                a = active[int(step['pick'] * len(active)) % len(active)]
+                la = proj.label_of(P, a, cur_v)
+                m = ws.run('command', {'interactive': False,
+                                       'app_label': la, 'apply_all': True},
+                           command='mark-evolution-applied', pos=[])
+                snap = snapshot.snapshot(ws)
+                pre_rows = prev['book'].get('django_evolution') or []
+                post_rows = snap['book'].get('django_evolution') or []
+                stats['mark_all'] = stats.get('mark_all', 0) + 1
+                if any(x[2] == la for x in pre_rows):
+                    stats['mark_all_with_recorded'] = 1
+                det = dict(run=run_idx, step=si, driver='mark_all',
+                           status=m.status, faulted=False, fault_scope=None,
+                           phase=None, **detail0)
+                seen = set()
+                for x in post_rows:
+                    key = (x[2], x[3])
+                    if key in seen and key[0] in P['order']:
+                        viols.append(violation('C08.recorded_twice',
+                                               app=key[0], label=key[1],
+                                               **det))
+                    seen.add(key)
+                gone = [x for x in pre_rows if x not in post_rows]
+                if gone:
+                    viols.append(violation(
+                        'C08.record_removed',
+                        rows=[list(x) for x in gone][:4], **det))
+                if m.status != 'ok' and post_rows != pre_rows:
+                    viols.append(violation(
+                        'C08.recorded_by_failed_run',
+                        rows=[list(x) for x in post_rows
+                              if x not in pre_rows][:4], **det))
+                prev = snap
                 continue
             if step['do'] == 'wipe_mark':
                 rows = prev['book'].get('django_evolution') or []
